@@ -128,6 +128,7 @@ type Obs struct {
 	Stor   [][2]string `json:"stor,omitempty"`
 }
 type LogObs struct {
+	Index  uint     `json:"index"`
 	A      Addr     `json:"a"`
 	Topics []string `json:"topics"`
 	Dlen   int      `json:"dlen"`
@@ -139,6 +140,7 @@ type TxResult struct {
 	Accts  []Obs  `json:"accts"`
 	Refund uint64 `json:"refund"`
 	Burnt  string `json:"burnt"`
+	LogCnt uint   `json:"log_count"`
 }
 type Result struct {
 	Final []Obs          `json:"final"`
@@ -401,6 +403,7 @@ type acctDump struct {
 	stor   map[common.Hash]common.Hash
 }
 type dump struct {
+	logsize uint // the block-wide log counter
 	accts  map[common.Address]*acctDump
 	nlogs  int
 	logsig common.Hash
@@ -417,7 +420,7 @@ type env struct {
 }
 
 func (e *env) dumpNow() *dump {
-	d := &dump{accts: map[common.Address]*acctDump{}, refund: e.db.GetRefund()}
+	d := &dump{accts: map[common.Address]*acctDump{}, refund: e.db.GetRefund(), logsize: e.db.VerifC16LogSize()}
 	keys := map[common.Address][]common.Hash{}
 	for a, ks := range e.initial {
 		keys[a] = append(keys[a], ks...)
@@ -464,6 +467,9 @@ func (a *acctDump) isEmptyView() bool {
 func diff(pre, post *dump, strict bool, nonceFree *common.Address) string {
 	if pre.nlogs != post.nlogs || pre.logsig != post.logsig {
 		return fmt.Sprintf("logs changed (%d -> %d)", pre.nlogs, post.nlogs)
+	}
+	if pre.logsize != post.logsize {
+		return fmt.Sprintf("block-wide log counter (the next Log.Index) changed (%d -> %d)", pre.logsize, post.logsize)
 	}
 	if pre.refund != post.refund {
 		return fmt.Sprintf("refund counter changed (%d -> %d)", pre.refund, post.refund)
@@ -876,7 +882,7 @@ func run(c *Case) (*Result, error) {
 			_, left, cerr = evm.Call(vm.AccountRef(origin), cp.real(&t), nil, tx.Gas, big10(tx.Value))
 		}
 		post := e.dumpNow()
-		txr := TxResult{Status: errClass(cerr), Gas: left, Refund: db.GetRefund()}
+		txr := TxResult{Status: errClass(cerr), Gas: left, Refund: db.GetRefund(), LogCnt: db.VerifC16LogSize()}
 		if cerr != nil {
 			txr.Err = cerr.Error()
 			if len(txr.Err) > 60 {
@@ -1117,7 +1123,10 @@ func run(c *Case) (*Result, error) {
 			if !ok {
 				return nil, fmt.Errorf("log from unknown address %x", l.Address)
 			}
-			lo := LogObs{A: sym, Dlen: len(l.Data), Topics: []string{}}
+			if l.Index != uint(len(res.Logs)) {
+				hit(fmt.Sprintf("log indices of the block are not consecutive: log number %d of the block (emission order of the surviving logs) has Index %d", len(res.Logs), l.Index))
+			}
+			lo := LogObs{Index: l.Index, A: sym, Dlen: len(l.Data), Topics: []string{}}
 			for _, tp := range l.Topics {
 				lo.Topics = append(lo.Topics, new(big.Int).SetBytes(tp[:]).String())
 			}
@@ -1126,6 +1135,9 @@ func run(c *Case) (*Result, error) {
 	}
 	// the block's root must be computable (IntermediateRoot as the block validator does)
 	db.IntermediateRoot(true)
+	if n := db.VerifC16LogSize(); n != uint(len(res.Logs)) {
+		hit(fmt.Sprintf("block-wide log counter is %d after a block with %d surviving logs", n, len(res.Logs)))
+	}
 	res.Hits = hits
 	return res, nil
 }
@@ -1231,7 +1243,7 @@ func caseCoq(c *Case, r *Result) string {
 		if ti > 0 {
 			sb.WriteString(";\n ")
 		}
-		sb.WriteString(fmt.Sprintf("mkTxObs %d %d %d %s [", x.Status, x.Gas, x.Refund, big10(x.Burnt)))
+		sb.WriteString(fmt.Sprintf("mkTxObs %d %d %d %d %s [", x.Status, x.Gas, x.Refund, x.LogCnt, big10(x.Burnt)))
 		for i, o := range x.Accts {
 			if i > 0 {
 				sb.WriteString("; ")
@@ -1246,6 +1258,13 @@ func caseCoq(c *Case, r *Result) string {
 			sb.WriteString("; ")
 		}
 		sb.WriteString(fmt.Sprintf("(%s, %s, %d)", addrCoq(&l.A), nums(l.Topics), l.Dlen))
+	}
+	sb.WriteString("] [")
+	for i, l := range r.Logs {
+		if i > 0 {
+			sb.WriteString("; ")
+		}
+		sb.WriteString(fmt.Sprintf("%d", l.Index))
 	}
 	sb.WriteString("]\n [")
 	for i, o := range r.Final {
